@@ -1,6 +1,7 @@
 import EvyV.Driver.Util
 import EvyV.Driver.FloatOps
 import EvyV.Model.Index
+import EvyV.Driver.MapDrv
 /-
 Line protocol driver (core-only, compiled as `lean_exe evyv`).
 One request per line, one answer per line. See DESIGN.md §3.2.
@@ -43,6 +44,7 @@ def handle (line : String) : String :=
       | .ok (s, e) => s!"ok {s} {e}"
       | .error e => showIdxErr e
     | _, _, _ => "ERR bad args"
+  | "map" :: rest => MapDrv.handle rest
   | _ => "ERR unknown request"
 
 partial def loop (hin hout : IO.FS.Stream) : IO Unit := do
